@@ -80,19 +80,23 @@ def trialOps (n0 e : Nat) (cfg : TrialCfg) : List Op × Nat :=
   | none => (setItems e cfg.pre ++ sortOps e cfg.index ++ setItems e cfg.stat, e)
   | some sel => (setItems e cfg.pre ++ [.getSel e sel] ++ sortOps n0 cfg.index ++ setItems n0 cfg.stat, n0)
 
+/-- the MC cache of `MCDataSamplingBkgGenMethod`: operations that build it if it is not there, the container
+holding it, the id the next created container gets -/
+def cachePlan (n0 : Nat) (r : Roles) (keep : List Name) (presel : Option Sel) : List Op × Nat × Nat :=
+  match r.cache with
+  | some c => ([], c, n0)
+  | none =>
+    match presel with
+    | none => ([.copy r.mc (some keep), .indices n0], n0, n0 + 1)
+    | some sel => ([.copy r.mc (some keep), .getSel n0 sel, .indices (n0 + 1)], n0 + 1, n0 + 2)
+
 /-- operations, new roles, handle returned to the caller -/
 def compile (n0 : Nat) (r : Roles) : GOp → List Op × Roles × Option Nat
   | .genFixed sets => ([.copy r.exp none] ++ setItems n0 sets, r, some n0)
   | .genMC keep presel draw sets expFields =>
-    let (ops0, cache, next) : List Op × Nat × Nat :=
-      match r.cache with
-      | some c => ([], c, n0)
-      | none =>
-        match presel with
-        | none => ([.copy r.mc (some keep), .indices n0], n0, n0 + 1)
-        | some sel => ([.copy r.mc (some keep), .getSel n0 sel, .indices (n0 + 1)], n0 + 1, n0 + 2)
-    (ops0 ++ [.getSel cache (.idx draw)] ++ setItems next sets ++ [.tidyUp next expFields],
-     { r with cache := some cache }, some next)
+    let p := cachePlan n0 r keep presel
+    (p.1 ++ [.getSel p.2.1 (.idx draw)] ++ setItems p.2.2 sets ++ [.tidyUp p.2.2 expFields],
+     { r with cache := some p.2.1 }, some p.2.2)
   | .genSig cols => ([.new cols], r, some n0)
   | .merge b s => ([.append b s], r, some b)
   | .initTrial e cfg =>
